@@ -80,3 +80,9 @@ package hcl
 // verif:func (Body).MissingItemRange
 //@ trusted
 //@ pure
+
+// verif:func (*EvalContext).NewChild
+//@ props C18
+//@ nilrecv
+//@ assigns nothing
+//@ ensures fresh(ret) && ret != nil && ret.parent == ctx && ret.Variables == nil && ret.Functions == nil
